@@ -85,3 +85,55 @@ Definition model_store_sites : list (string * string * string) :=
 
 Lemma store_sites_in_sync : model_store_sites = DialErrors.store_sites.
 Proof. reflexivity. Qed.
+
+
+(* ---------- where addresses are offered to the address book ---------- *)
+
+(* every call of add_known_address / dial_address in the crate (identify.rs and mdns.rs have none:
+   the addresses they learn are reported to the user as events and reach the book only if the
+   user offers them) and what covers it:
+     lib.rs new                      Litep2pConfig::known_addresses -> TransportManager::add_known_address,
+                                     after the listen addresses (Litep2p-level cases: OListen .. then OAdd ..)
+     lib.rs add_known_address        Litep2p::add_known_address -> TransportManager::add_known_address (OAdd,
+                                     Litep2p-level cases)
+     lib.rs dial_address             Litep2p::dial_address -> TransportManager::dial_address (ODialAddr)
+     kademlia/mod.rs new, update_routing_table, run
+                                     TransportService::add_known_address (OAdd on ts_prepare; which peers and
+                                     addresses Kademlia offers is C14's subject)
+     transport_service.rs add_known_address
+                                     appends the peer id where missing (ts_prepare), then
+                                     TransportManagerHandle::add_known_address (OAdd)
+     transport_service.rs dial_address
+                                     TransportManagerHandle::dial_address: a command to the manager
+     manager/mod.rs add_known_address  the handle's add_known_address (OAdd)
+     manager/mod.rs next             the DialAddress command -> TransportManager::dial_address (ODialAddr) *)
+Definition model_entry_sites : list (string * string * string) :=
+  [("lib.rs", "new", "add_known_address");
+   ("lib.rs", "dial_address", "dial_address");
+   ("lib.rs", "add_known_address", "add_known_address");
+   ("protocol/libp2p/kademlia/mod.rs", "new", "add_known_address");
+   ("protocol/libp2p/kademlia/mod.rs", "update_routing_table", "add_known_address");
+   ("protocol/libp2p/kademlia/mod.rs", "run", "add_known_address");
+   ("protocol/transport_service.rs", "dial_address", "dial_address");
+   ("protocol/transport_service.rs", "add_known_address", "add_known_address");
+   ("transport/manager/mod.rs", "add_known_address", "add_known_address");
+   ("transport/manager/mod.rs", "next", "dial_address")]%string.
+
+(* in Litep2p::new every add_known_address call comes after every register_listen_address call
+   (and there is one): the configured known addresses are filtered against the listen addresses *)
+Fixpoint listen_before_known (l : list string) : bool :=
+  match l with
+  | [] => false
+  | x :: t =>
+      if String.eqb x "add_known_address" then forallb (fun y => String.eqb y "add_known_address") t
+      else listen_before_known t
+  end.
+
+Lemma entry_sites_in_sync :
+  model_entry_sites = DialErrors.entry_sites /\ listen_before_known DialErrors.new_call_order = true.
+Proof. split; reflexivity. Qed.
+
+(* coq/C10/IpClass.v transcribes the special ranges of this version of the ip_network crate *)
+Definition ip_network_0_4_1 : string := "0.4.1".
+Lemma ip_network_version_pinned : DialErrors.ip_network_version = ip_network_0_4_1.
+Proof. reflexivity. Qed.
